@@ -191,4 +191,8 @@ func genC11(tier string, rng *Rng) {
 			}
 		}
 	}
+	// X11 extension, after the existing cases (their seed-1 stream is unchanged)
+	genC11Str(rng, nseq/2) // streaming mode (c11s.go)
+	genC11Interim(rng, n/20)
+	genMpWrite(rng, n/6) // hertz's part of the multipart writer (c11mpw.go)
 }
